@@ -1390,6 +1390,26 @@ void reb_simulation_rescale_var(struct reb_simulation* const r){
                 particles[i].vz /= scale;
             }
 
+            if (r->integrator == REB_INTEGRATOR_IAS15 && r->ri_ias15.N_allocated >= 3*(unsigned int)(vc->index+N)){
+                // IAS15 carries state of the variational particles across steps: the compensated-summation
+                // residuals of positions/velocities and the predictor/corrector coefficients. They are linear
+                // in the variational particles and have to be rescaled by the same factor.
+                struct reb_integrator_ias15* const ri = &(r->ri_ias15);
+                struct reb_dp7* const dp7s[5] = {&ri->b, &ri->csb, &ri->e, &ri->br, &ri->er};
+                for (int k=3*vc->index; k<3*(vc->index+N); k++){
+                    ri->csx[k] /= scale;
+                    ri->csv[k] /= scale;
+                    for (int a=0; a<5; a++){
+                        dp7s[a]->p0[k] /= scale;
+                        dp7s[a]->p1[k] /= scale;
+                        dp7s[a]->p2[k] /= scale;
+                        dp7s[a]->p3[k] /= scale;
+                        dp7s[a]->p4[k] /= scale;
+                        dp7s[a]->p5[k] /= scale;
+                        dp7s[a]->p6[k] /= scale;
+                    }
+                }
+            }
             if (r->integrator == REB_INTEGRATOR_WHFAST && r->ri_whfast.safe_mode == 0){
                 r->ri_whfast.recalculate_coordinates_this_timestep = 1;
             }
